@@ -32,4 +32,17 @@ let op_verify t =
     end in
   model ^ " ## " ^ spec
 
-let ops : (S.t * (S.t array -> S.t)) list = [ "crc", op_crc; "verify", op_verify ]
+(* verifyseq: every frame of the sequence on its own (a verification has no memory) *)
+let op_verifyseq t =
+  let one h =
+    let a = ints_of_hex h in
+    let n = Array.length a in
+    let v = res_z (M.frame_verify (rd_strict_arr a) (z_of_int n)) in
+    let f = if n >= 4 then (match M.calculate_fcs (rd_strict_arr a) (z_of_int (n - 4)) with M.Done f -> int_of_z f | _ -> -1) else 0 in
+    sp " %s/%08x" v f in
+  let b = Buffer.create 64 in
+  Buffer.add_string b "verifyseq";
+  for i = 1 to Array.length t - 1 do Buffer.add_string b (one t.(i)) done;
+  Buffer.contents b
+
+let ops : (S.t * (S.t array -> S.t)) list = [ "crc", op_crc; "verify", op_verify; "verifyseq", op_verifyseq ]
